@@ -616,17 +616,17 @@ type FetchResponseV1 struct {
 // Fetch Response (Version: 4)
 
 type AbortedTransactionsV4 struct {
-	ProducerId  int32 `json:"producerId"`
-	FirstOffset int32 `json:"firstOffset"`
+	ProducerId  int64 `json:"producerId"`
+	FirstOffset int64 `json:"firstOffset"`
 }
 
 type PartitionResponseFetchV4 struct {
-	Partition           int32                 `json:"partition"`
-	ErrorCode           int16                 `json:"errorCode"`
-	HighWatermark       int64                 `json:"highWatermark"`
-	LastStableOffset    int64                 `json:"lastStableOffset"`
-	AbortedTransactions AbortedTransactionsV4 `json:"abortedTransactions"`
-	RecordSet           Records               `json:"recordSet"`
+	Partition           int32                   `json:"partition"`
+	ErrorCode           int16                   `json:"errorCode"`
+	HighWatermark       int64                   `json:"highWatermark"`
+	LastStableOffset    int64                   `json:"lastStableOffset"`
+	AbortedTransactions []AbortedTransactionsV4 `json:"abortedTransactions"`
+	RecordSet           Records                 `json:"recordSet"`
 }
 
 type ResponseFetchV4 struct {
@@ -642,13 +642,13 @@ type FetchResponseV4 struct {
 // Fetch Response (Version: 5)
 
 type PartitionResponseFetchV5 struct {
-	Partition           int32                 `json:"partition"`
-	ErrorCode           int16                 `json:"errorCode"`
-	HighWatermark       int64                 `json:"highWatermark"`
-	LastStableOffset    int64                 `json:"lastStableOffset"`
-	LogStartOffset      int64                 `json:"logStartOffset"`
-	AbortedTransactions AbortedTransactionsV4 `json:"abortedTransactions"`
-	RecordSet           Records               `json:"recordSet"`
+	Partition           int32                   `json:"partition"`
+	ErrorCode           int16                   `json:"errorCode"`
+	HighWatermark       int64                   `json:"highWatermark"`
+	LastStableOffset    int64                   `json:"lastStableOffset"`
+	LogStartOffset      int64                   `json:"logStartOffset"`
+	AbortedTransactions []AbortedTransactionsV4 `json:"abortedTransactions"`
+	RecordSet           Records                 `json:"recordSet"`
 }
 
 type ResponseFetchV5 struct {
@@ -673,14 +673,14 @@ type FetchResponseV7 struct {
 // Fetch Response (Version: 11)
 
 type PartitionResponseFetchV11 struct {
-	Partition            int32                 `json:"partition"`
-	ErrorCode            int16                 `json:"errorCode"`
-	HighWatermark        int64                 `json:"highWatermark"`
-	LastStableOffset     int64                 `json:"lastStableOffset"`
-	LogStartOffset       int64                 `json:"logStartOffset"`
-	AbortedTransactions  AbortedTransactionsV4 `json:"abortedTransactions"`
-	PreferredReadReplica int32                 `json:"preferredReadReplica"`
-	RecordSet            Records               `json:"recordSet"`
+	Partition            int32                   `json:"partition"`
+	ErrorCode            int16                   `json:"errorCode"`
+	HighWatermark        int64                   `json:"highWatermark"`
+	LastStableOffset     int64                   `json:"lastStableOffset"`
+	LogStartOffset       int64                   `json:"logStartOffset"`
+	AbortedTransactions  []AbortedTransactionsV4 `json:"abortedTransactions"`
+	PreferredReadReplica int32                   `json:"preferredReadReplica"`
+	RecordSet            Records                 `json:"recordSet"`
 }
 
 type ResponseFetchV11 struct {
